@@ -142,7 +142,10 @@ func (c *c15Rig) credit(kind string, accts []proto4.Account, amounts []types.Cur
 		credited = true
 		var sum types.Currency
 		for _, d := range call.deposits {
-			sum = sum.Add(d.Amount)
+			var over bool
+			if sum, over = sum.AddWithOverflow(d.Amount); over {
+				e.Violationf("C15.credit-matches-revision", kind+":overflow", "%s credited deposits whose sum overflows: %v", call.method, call.deposits)
+			}
 			if call.method == "CreditPoolsWithContract" {
 				c.m.pool[d.Account] = c.m.pool[d.Account].Add(d.Amount)
 			} else {
@@ -237,6 +240,17 @@ func (c *c15Rig) service(kind string) {
 			e.Violationf("C15.honest-rpc", "attach", "honest RPCAttachPools failed: %v", aerr)
 		}
 		c.m.attached[acct] = append(c.m.attached[acct], p)
+		if e.Chance(1, 2) {
+			// attaching the same pool again (a renter renewing the attachment's
+			// validity) gives the account nothing more to draw on
+			e.Guard("C15.panic", "RPCAttachPools", func() {
+				aerr = rhp4.RPCAttachPools(ctx, c.tr, []rhp4.PoolAttachInput{{Account: acct, PoolKey: pk}}, time.Duration(e.Range(2, 120))*time.Minute)
+			})
+			if aerr != nil {
+				e.Violationf("C15.honest-rpc", "re-attach", "attaching an already attached pool again failed: %v", aerr)
+			}
+			e.Fault("pool-attached-twice")
+		}
 	}
 	if !own.IsZero() {
 		c.credit("fund", []proto4.Account{acct}, []types.Currency{own}, types.ZeroCurrency)
@@ -428,6 +442,25 @@ func runC15(e *sim.Env) {
 				as = append(as, pool[e.Intn(len(pool))])
 				amts = append(amts, types.Siacoins(uint32(e.Range(1, 9))).Div64(uint64(e.Range(1, 1000))))
 			}
+			if e.Chance(1, 6) && len(pool) >= 3 {
+				// an adversarial funding request: deposits whose sum wraps around
+				// (max + 2 + 1 = 2 mod 2^128) under the revision the honest
+				// request for 2 H carries. Nothing may be credited.
+				c.hook = func(_ int, id types.Specifier, step int, st simrhp.Step, o proto4.Object, raw []byte) simrhp.Action {
+					if req, ok := o.(*proto4.RPCFundAccountsRequest); ok && st.FromRenter {
+						req.Deposits = []proto4.AccountDeposit{
+							{Account: pool[0], Amount: types.MaxCurrency},
+							{Account: pool[1], Amount: types.NewCurrency64(2)},
+							{Account: pool[2], Amount: types.NewCurrency64(1)},
+						}
+						e.Fault("fund-deposits-overflow")
+					}
+					return simrhp.Pass
+				}
+				c.credit("fund", []proto4.Account{pool[1]}, []types.Currency{types.NewCurrency64(2)}, types.ZeroCurrency)
+				c.hook = nil
+				continue
+			}
 			c.credit("fund", as, amts, types.ZeroCurrency)
 		case 1:
 			// replenish, sometimes naming an account twice or one above the target
@@ -461,8 +494,8 @@ var _ = sim.NewEnv
 
 func init() {
 	register(&Prop{
-		ID: "C15", Run: runC15, Quick: 300, Thorough: 8000, Level: "exploration",
-		Rule:        "one run = a formed contract and 8-24 drawn operations over several accounts and pools: fund, replenish accounts / pools (lists with repeated entries and entries already above the target), attach (valid, signed by the account key, by a stranger, expired, flipped signature) and detach (account key, pool key, stranger), and read / write / verify with the drawable funds (own balance, optionally split with an attached pool) at cost-1H, cost and cost+1H and with sectors the host does not store; every Credit*/DebitAccount call and every sector-store call is recorded with the global event number; oracles: credits equal the value the accompanying renter-signed revision moves, debits equal the priced cost (core's functions) and precede the sector access, no debit without service and no service without debit, insufficient funds deliver nothing / store nothing / debit nothing, replenish ends at max(before, target), attach/detach only with the right signature before expiry, and after every step every account and pool balance the host reports equals the model ledger; distinct = abstract trace; all runs non-trivial once a service RPC ran",
+		ID: "C15", Run: runC15, Quick: 900, Thorough: 8000, Level: "exploration",
+		Rule:        "one run = a formed contract and 8-24 drawn operations over several accounts and pools: fund, replenish accounts / pools (lists with repeated entries and entries already above the target), attach (valid, signed by the account key, by a stranger, expired, flipped signature) and detach (account key, pool key, stranger), and read / write / verify with the drawable funds (own balance, optionally split with an attached pool, which in half of those cases is attached a second time) at cost-1H, cost and cost+1H and with sectors the host does not store; every Credit*/DebitAccount call and every sector-store call is recorded with the global event number; oracles: credits equal the value the accompanying renter-signed revision moves, debits equal the priced cost (core's functions) and precede the sector access, no debit without service and no service without debit, insufficient funds deliver nothing / store nothing / debit nothing, replenish ends at max(before, target), attach/detach only with the right signature before expiry, and after every step every account and pool balance the host reports equals the model ledger; distinct = abstract trace; all runs non-trivial once a service RPC ran",
 		Real:        []string{"rhp4.Server", "rhp4 RPC* client functions", "testutil.EphemeralContractor (accounts, pools, attachments) / EphemeralSectorStore behind recording wrappers", "wallets, chain.Manager"},
 		Stub:        []string{"transport: simrhp in-memory streams with typed relay", "disk: simdisk.DB"},
 		Assumptions: []string{"no fault is injected into the sector store: a host-side disk error after a legitimate debit is outside the statement"},
